@@ -359,7 +359,15 @@ impl VM {
                     let left = self.pop();
                     let result = match left.tag() {
                         Type::Float => unsafe { Object::float(-left.as_f64_unchecked(), gc) },
-                        Type::Int => Object::int(-left.as_int()),
+                        Type::Int => match Object::checked_int(left.as_int().checked_neg()) {
+                            Some(result) => result,
+                            None => {
+                                return Err(Error::TypeError(format!(
+                                    "uitkomst van -({}) is geen geldige integer",
+                                    left.as_int()
+                                )))
+                            }
+                        },
                         _ => {
                             return Err(Error::TypeError(format!(
                                 "kan objecten met type {} niet omdraaien",
